@@ -267,6 +267,58 @@ def run_scenarios(fa, res, codec, tier):
             for k in (0, 1):
                 nk, dk = names.resolve(WS[k])
                 check_read(res, fa, "read", dict(info, axis=info["axis"] + f"-file{k}"), io.BytesIO(fos[k].getvalue()), cont.expected(nk, dk, wrecs[k]), canon.canonical((nk, dk)), codec, {})
+    # (6) blocks beyond one MiB: a single record above 1 MiB, and many small records in one block of more than 1 MiB
+    BS = {"type": "record", "name": "Blob", "fields": [{"name": "i", "type": "int"}, {"name": "b", "type": "bytes"}, {"name": "s", "type": "string"}]}
+    nb, db = names.resolve(BS)
+    for label, recs6, iv in (("one-record-above-1MiB", [{"i": 1, "b": bytes(range(256)) * 4100, "s": "x"}, {"i": 2, "b": b"", "s": "y"}], 16000),
+                             ("many-records-one-block-above-1MiB", [{"i": i, "b": bytes([i % 251]) * 3000, "s": "s%d" % i} for i in range(400)], 1 << 30),
+                             ("string-above-1MiB", [{"i": 3, "b": b"q", "s": "é" * 600000}], 1)):
+        info = {"schema": BS, "records": f"<{label}>", "codec": codec, "sync_interval": iv, "axis": "scenario:" + label}
+        note_case(info)
+        keys.add(("big", label))
+        res.evals += 1
+        fo = io.BytesIO()
+        try:
+            fa.writer(fo, copy.deepcopy(BS), recs6, codec=codec, sync_interval=iv, sync_marker=marker)
+            got = list(fa.reader(io.BytesIO(fo.getvalue())))
+        except Exception as e:
+            res.add(Violation("c04.read", f"read-raised:{type(e).__name__}:big-block", f"{label} under {codec}: {type(e).__name__}: {e}", info))
+            continue
+        if got != recs6:
+            res.add(Violation("c04.read", "records-differ:big-block", f"{label} under {codec}: {len(got)} records read back, first difference at {next((i for i, (a, b) in enumerate(zip(got, recs6)) if a != b), None)}", info))
+    # (7) a codec name in another letter case is either refused or yields a file that reads back (and names a codec readers know)
+    for spelled in (codec.capitalize(), codec.upper(), codec + " "):
+        if spelled == codec:
+            continue
+        info = {"schema": BS, "records": "<2 small>", "codec": spelled, "sync_interval": 16000, "axis": "scenario:codec-spelling"}
+        note_case(info)
+        keys.add(("spelling", spelled))
+        res.evals += 1
+        fo = io.BytesIO()
+        small = [{"i": 1, "b": b"a", "s": "x"}, {"i": 2, "b": b"", "s": ""}]
+        try:
+            fa.writer(fo, copy.deepcopy(BS), small, codec=spelled, sync_marker=marker)
+        except Exception:
+            continue  # refused: nothing was promised
+        try:
+            got = list(fa.reader(io.BytesIO(fo.getvalue())))
+        except Exception as e:
+            got = f"{type(e).__name__}: {e}"
+        if got != small:
+            res.add(Violation("c04.read", "records-differ:codec-spelling", f"writer accepted codec={spelled!r} but the file reads back as {short(got, 200)}", info))
+    # (8) a schema attribute holding a lone surrogate (JSON text with an unpaired \\ud83c escape loads to exactly this)
+    SD = {"type": "record", "name": "Doc", "doc": "cut emoji \ud83c here", "fields": [{"name": "a", "type": "int", "doc": "\udc80"}]}
+    nd_, dd_ = names.resolve({"type": "record", "name": "Doc", "fields": [{"name": "a", "type": "int"}]})
+    info = {"schema": "<Doc with lone surrogate in doc>", "records": [{"a": 1}], "codec": codec, "sync_interval": 16000, "axis": "scenario:surrogate-in-doc"}
+    note_case(info)
+    keys.add(("surrogate-doc",))
+    res.evals += 1
+    fo = io.BytesIO()
+    try:
+        fa.writer(fo, copy.deepcopy(SD), [{"a": 1}, {"a": -64}], codec=codec, sync_marker=marker)
+        check_read(res, fa, "read", info, io.BytesIO(fo.getvalue()), cont.expected(nd_, dd_, [{"a": 1}, {"a": -64}]), canon.canonical((nd_, dd_)), codec, {})
+    except Exception as e:
+        res.add(Violation("c04.write", f"write-raised:{type(e).__name__}:scenario", f"schema with a lone surrogate in a doc attribute: {type(e).__name__}: {e}", info))
     res.distinct = len(keys)
     res.sample({"scenarios": sorted(map(str, keys))[:4], "codec": codec})
     return res
